@@ -136,6 +136,14 @@ def lookupViews (store : Store) : List XOp → List (String × Store)
   | .plain op :: rest => lookupViews (storeStep store op) rest
   | .race ip ev :: rest => (ip, store) :: lookupViews (storeStep store ev) rest
 
+/-- for a racing lookup (an event handled while the lookup is in progress) the answer may also be the one computed
+after the event: the lookup overlaps the event, either order is a correct account of it -/
+def lateAnswers {Pat : Type} (cfg : Config Pat) (store : Store) : List XOp → List (Option (Option Inst))
+  | [] => []
+  | .plain (.lookup _) :: rest => none :: lateAnswers cfg store rest
+  | .plain op :: rest => lateAnswers cfg (storeStep store op) rest
+  | .race ip ev :: rest => some (specAnswer cfg (storeStep store ev) ip) :: lateAnswers cfg (storeStep store ev) rest
+
 def answersOf (outs : List Out) : List (Option Inst) :=
   outs.filterMap (fun o => match o with | .ans r => some r | .ev => none)
 
@@ -148,6 +156,13 @@ def runModel (line : String) : String :=
     if missing c then "ORACLE_MISS" else
     let answers := answersOf (xrun c.cfg K8s.init c.ops)
     let views := lookupViews [] c.ops
+    -- a racing lookup whose answer differs before and after the racing event may be answered either way: no
+    -- prediction for such a history (the specification accepts both and still judges every later lookup)
+    let early := answersOf (xspecRun c.cfg [] c.ops)
+    let late := lateAnswers c.cfg [] c.ops
+    let open_ := (List.range early.length).any (fun i =>
+      match late[i]?, early[i]? with | some (some a), some e => renderAns a != renderAns e | _, _ => false)
+    (if open_ then "* " else "") ++
     joinAns ((answers.zip views).map (fun (a, (ip, store)) =>
       if (podsAt store ip).length > 1 then "AMBIG" else renderAns a))
 
@@ -177,7 +192,10 @@ def spec (caseLine implLine : String) : String :=
     let want := answersOf (xspecRun c.cfg [] c.ops)
     if want.length ≠ views.length then "BAD_CASE" else
     let pos := lookupPositions c.ops
-    let bad := (List.range got.length).filter (fun i => got[i]! ≠ renderAns (want[i]!))
+    let late := lateAnswers c.cfg [] c.ops
+    let bad := (List.range got.length).filter (fun i =>
+      got[i]! ≠ renderAns (want[i]!) &&
+      (match late[i]? with | some (some a) => got[i]! ≠ renderAns a | _ => true))
     match bad with
     | [] => "ok"
     | i :: _ =>
